@@ -523,3 +523,11 @@ func sortedKeys[V any](m map[string]V) []string {
 }
 
 var startTime = time.Now()
+
+// hstep is one step of a 64-bit mixing hash (FNV-style multiply plus a xor-shift so that
+// differences confined to the top bits of the input words do not cancel each other).
+func hstep(h, x uint64) uint64 {
+	h = (h ^ x) * 0x9E3779B97F4A7C15
+	h ^= h >> 29
+	return h
+}
